@@ -330,243 +330,97 @@ class Envelope:
                 for k, v in out.items():
                     outcomes[k] = v
         else:
+            from photon_weave.state.polarization import PolarizationLabel
+
             assert isinstance(self.fock.index, int)
             assert isinstance(self.polarization.index, int)
+            assert isinstance(self.state, jnp.ndarray)
 
-            reshape_shape = [-1, -1]
-            reshape_shape[self.fock.index] = self.fock.dimensions
-            reshape_shape[self.polarization.index] = self.polarization.dimensions
+            dims = [-1, -1]
+            dims[self.fock.index] = self.fock.dimensions
+            dims[self.polarization.index] = self.polarization.dimensions
+
+            # States to be measured: the named one if measured separately, else both
+            members: List[Union[Fock, Polarization]] = [self.polarization, self.fock]
+            if separate_measurement and len(states) == 1:
+                to_measure = [m for m in members if m is states[0]]
+            else:
+                to_measure = members
 
             C = Config()
-
-            if self.expansion_level == ExpansionLevel.Vector:
-                assert isinstance(self.state, jnp.ndarray)
+            is_vector = self.expansion_level == ExpansionLevel.Vector
+            if is_vector:
                 assert self.state.shape == (self.dimensions, 1)
-                reshape_shape.append(1)
-                ps = self.state.reshape(reshape_shape)
-
-                # 1. Measure Fock Part
-                if (
-                    (separate_measurement and self.fock in states)
-                    or len(states) == 0
-                    or len(states) == 2
-                ):
-                    probabilities = (
-                        jnp.abs(jnp.sum(ps, axis=self.polarization.index)).flatten()
-                        ** 2
-                    )
-                    _verif_announce("measure", self.fock)
-                    key = C.random_key
-                    choice = int(
-                        jax.random.choice(
-                            key, a=jnp.arange(len(probabilities)), p=probabilities
-                        )
-                    )
-                    outcomes[self.fock] = choice
-
-                    # Construct post measurement state
-                    post_measurement = jnp.take(ps, choice, self.polarization.index)
-                    ps = jnp.take(ps, choice, axis=self.fock.index)
-
-                    einsum = "ij,kj->ikj"
-                    if self.fock.index == 0:
-                        ps = jnp.einsum(einsum, post_measurement, ps)
-                    elif self.fock.index == 1:
-                        ps = jnp.einsum(einsum, ps, post_measurement)
-
-                if (
-                    (separate_measurement and self.polarization in states)
-                    or len(states) == 0
-                    or len(states) == 2
-                ):
-                    probabilities = (
-                        jnp.abs(jnp.sum(ps, axis=self.fock.index)).flatten() ** 2
-                    )
-                    _verif_announce("measure", self.polarization)
-                    key = C.random_key
-                    choice = int(
-                        jax.random.choice(
-                            key, a=jnp.arange(len(probabilities)), p=probabilities
-                        )
-                    )
-                    outcomes[self.polarization] = choice
-
-                    # Construct post measurement state
-                    post_measurement = jnp.take(ps, choice, self.polarization.index)
-                    ps = jnp.take(ps, choice, axis=self.polarization.index)
-                    einsum = "ij,kj->ikj"
-                    if self.fock.index == 0:
-                        ps = jnp.einsum(einsum, ps, post_measurement)
-                    else:
-                        ps = jnp.einsum(einsum, post_measurement, ps)
-
-            if self.expansion_level == ExpansionLevel.Matrix:
-                assert isinstance(self.state, jnp.ndarray)
+                ps = self.state.reshape(dims)
+            else:
                 assert self.state.shape == (self.dimensions, self.dimensions)
-                reshape_shape = [*reshape_shape, *reshape_shape]
-                transpose_pattern = [0, 2, 1, 3]
-                ps = self.state.reshape(reshape_shape).transpose(transpose_pattern)
+                ps = self.state.reshape([*dims, *dims])
 
-                # 1. Measure Fock Part
-                if (
-                    (separate_measurement and self.fock in states)
-                    or len(states) == 0
-                    or len(states) == 2
-                ):
-                    if self.fock.index == 0:
-                        subspace = jnp.einsum("bcaa->bc", ps)
-                    else:
-                        subspace = jnp.einsum("aabc->bc", ps)
-                    probabilities = jnp.diag(subspace).real
-                    probabilities /= jnp.sum(probabilities)
-                    _verif_announce("measure", self.fock)
-                    key = C.random_key
-                    choice = int(
-                        jax.random.choice(
-                            key, a=jnp.arange(len(probabilities)), p=probabilities
-                        )
-                    )
-                    outcomes[self.fock] = choice
-
-                    # Reconstruct post measurement state
-                    indices: List[Union[slice, int]] = [slice(None)] * len(ps.shape)
-                    indices[self.fock.index] = outcomes[self.fock]
-                    indices[self.fock.index + 1] = outcomes[self.fock]
-                    ps = ps[tuple(indices)]
-
-                    post_measurement = jnp.zeros(
-                        (self.fock.dimensions, self.fock.dimensions)
-                    )
-                    post_measurement = post_measurement.at[choice, choice].set(1)
-                    if self.fock.index == 0:
-                        ps = jnp.einsum("ab,cd->abcd", post_measurement, ps)
-                    else:
-                        ps = jnp.einsum("ab,cd->abcd", ps, post_measurement)
-
-                # 2. Measure Polarization Part
-                if (
-                    (separate_measurement and self.polarization in states)
-                    or len(states) == 0
-                    or len(states) == 2
-                ):
-                    if self.polarization.index == 1:
-                        subspace = jnp.einsum("aabc->bc", ps)
-                    else:
-                        subspace = jnp.einsum("bcaa->bc", ps)
-                    probabilities = jnp.diag(subspace).real
-                    probabilities /= jnp.sum(probabilities)
-                    _verif_announce("measure", self.polarization)
-                    key = C.random_key
-                    choice = int(
-                        jax.random.choice(
-                            key, a=jnp.arange(len(probabilities)), p=probabilities
-                        )
-                    )
-                    outcomes[self.polarization] = choice
-
-                    # Reconstruct post measurement state
-                    indices = [slice(None)] * len(ps.shape)
-                    indices[self.polarization.index] = outcomes[self.polarization]
-                    indices[self.polarization.index + 1] = outcomes[self.polarization]
-                    ps = ps[tuple(indices)]
-
-                    post_measurement = jnp.zeros(
-                        (self.polarization.dimensions, self.polarization.dimensions)
-                    )
-                    post_measurement = post_measurement.at[choice, choice].set(1)
-
-                    if self.polarization.index == 0:
-                        ps = jnp.einsum("ab,cd->abcd", post_measurement, ps)
-                    else:
-                        ps = jnp.einsum("ab,cd->abcd", ps, post_measurement)
-
-            # Handle post measurement processes
-            ps = self.state.reshape(reshape_shape)
-            if self.expansion_level == ExpansionLevel.Vector:
-                if separate_measurement and len(states) == 1:
-                    if self.fock not in states:
-                        self.fock.state = jnp.take(
-                            ps, outcomes[self.polarization], self.polarization.index
-                        )
-                        self.fock.expansion_level = ExpansionLevel.Vector
-                        self.fock.index = None
-                        if destructive:
-                            self.polarization._set_measured()
-                        else:
-                            self.polarization.state = jnp.zeros((2, 1))
-                            self.polarization.state.at[
-                                1, outcomes[self.polarization]
-                            ].set(1)
-                            self.polarization.index = None
-                    if self.polarization not in states:
-                        self.polarization.state = jnp.take(
-                            ps, outcomes[self.fock], self.fock.index
-                        )
-                        self.polarization.expansion_level = ExpansionLevel.Vector
-                        self.polarization.index = None
-                        if destructive:
-                            self.fock._set_measured()
-                        else:
-                            self.fock.state = outcomes[self.fock]
-                            self.fock.expansion_level = ExpansionLevel.Label
-                            self.fock.index = None
+            for member in to_measure:
+                assert isinstance(member.index, int)
+                axis = member.index
+                # Outcome probabilities: diagonal of the reduced density matrix
+                if is_vector:
+                    probabilities = jnp.sum(jnp.abs(ps) ** 2, axis=1 - axis)
                 else:
-                    if self.fock.index == 0:
-                        self.fock.state = jnp.einsum("ijk->ik", ps)
-                    else:
-                        self.fock.state = jnp.einsum("ijk->jk", ps)
-                    self.fock.expansion_level = ExpansionLevel.Vector
-                    self.fock.index = None
+                    probabilities = jnp.einsum("abab->ab", ps).real.sum(axis=1 - axis)
+                probabilities = probabilities / jnp.sum(probabilities)
+                _verif_announce("measure", member)
+                key = C.random_key
+                choice = int(
+                    jax.random.choice(
+                        key, a=jnp.arange(len(probabilities)), p=probabilities
+                    )
+                )
+                outcomes[member] = choice
 
-                    if self.polarization.index == 0:
-                        self.polarization.state = jnp.einsum("ijk->ik", ps)
-                    else:
-                        self.polarization.state = jnp.einsum("ijk->jk", ps)
-                    self.polarization.expansion_level = ExpansionLevel.Vector
-                    self.polarization.index = None
-                    if destructive:
-                        self._set_measured()
-                        self.polarization._set_measured()
-                        self.fock._set_measured()
-            if self.expansion_level == ExpansionLevel.Matrix:
-                if separate_measurement and len(states) == 1:
-                    if self.fock not in states:
-                        if self.fock.index == 0:
-                            self.fock.state = jnp.einsum("abcb->ac", ps)
-                        elif self.fock.index == 1:
-                            self.fock.state = jnp.einsum("abac->bc", ps)
-                        self.fock.expansion_level = ExpansionLevel.Matrix
-                        self.fock.index = None
-                        if destructive:
-                            self.polarization._set_measured()
-                    if self.polarization not in states:
-                        if self.polarization.index == 0:
-                            self.polarization.state = jnp.einsum("abcb->ac", ps)
-                        elif self.polarization.index == 1:
-                            self.polarization.state = jnp.einsum("abac->bc", ps)
-                        self.polarization.expansion_level = ExpansionLevel.Matrix
-                        self.polarization.index = None
-                        if destructive:
-                            self.fock._set_measured()
+                # Project the product state onto the outcome
+                selector = jnp.zeros(dims[axis]).at[choice].set(1)
+                mask = selector[:, None] if axis == 0 else selector[None, :]
+                if is_vector:
+                    ps = ps * mask
                 else:
-                    if self.fock.index == 0:
-                        self.fock.state = jnp.einsum("ikjk->ij", ps)
-                    else:
-                        self.fock.state = jnp.einsum("kikj->ij", ps)
-                    self.fock.expansion_level = ExpansionLevel.Matrix
-                    self.fock.index = None
-                    if self.polarization.index == 0:
-                        self.polarization.state = jnp.einsum("ikjk->ij", ps)
-                    else:
-                        self.polarization.state = jnp.einsum("kikj->ij", ps)
-                    self.polarization.expansion_level = ExpansionLevel.Matrix
-                    self.polarization.index = None
+                    ps = ps * mask[:, :, None, None] * mask[None, None, :, :]
+
+            # Hand the states back to the fock and polarization instances
+            for member in members:
+                axis = member.index
+                assert isinstance(axis, int)
+                if member in outcomes:
                     if destructive:
-                        self._set_measured()
-                        self.fock._set_measured()
-                        self.polarization._set_measured()
-            self.polarization.contract()
-            self.fock.contract()
+                        continue
+                    if isinstance(member, Polarization):
+                        member.state = (
+                            PolarizationLabel.H
+                            if outcomes[member] == 0
+                            else PolarizationLabel.V
+                        )
+                    else:
+                        member.state = outcomes[member]
+                    member.expansion_level = ExpansionLevel.Label
+                else:
+                    # Not measured: keeps the state conditioned on the other outcome
+                    other = self.fock if member is self.polarization else self.polarization
+                    if is_vector:
+                        reduced = jnp.take(ps, outcomes[other], axis=1 - axis)
+                        member.state = (reduced / jnp.linalg.norm(reduced)).reshape(
+                            -1, 1
+                        )
+                        member.expansion_level = ExpansionLevel.Vector
+                    else:
+                        reduced = jnp.take(ps, outcomes[other], axis=1 - axis)
+                        reduced = jnp.take(reduced, outcomes[other], axis=2 - axis)
+                        member.state = reduced / jnp.trace(reduced)
+                        member.expansion_level = ExpansionLevel.Matrix
+            for member in members:
+                member.index = None
+                if member in outcomes and destructive:
+                    member._set_measured()
+            self.state = None
+            self._expansion_level = None
+            for member in members:
+                if not member.measured:
+                    member.contract()
 
         if destructive:
             self._set_measured()
